@@ -10,6 +10,7 @@ mod floatgrid;
 mod fuzz;
 mod fuzz_calc;
 mod lex;
+mod longchain;
 mod sym;
 mod term;
 mod threads;
@@ -44,6 +45,7 @@ fn main() {
         "fuzz-calc" => fuzz_calc::main(rest),
         "fuzz-val" => valgrid::main_fuzz(rest),
         "tables" => fuzz::main_tables(rest),
+        "longchain" => longchain::main(rest),
         _ => {
             eprintln!("usage: recorder <expr> [options]");
             2
